@@ -103,4 +103,53 @@ theorem accepted_trailers_rules (blk : HeaderBlock) (g : List Header) (sid : Nat
   · simpa using hr
   · cases hr
 
+
+/-- what the application may be handed for a delivered header block that stands for the field list `g`:
+    a request (server) / response (client) whose only possible rule violations are the listed
+    exceptions, with exactly the regular fields of `g`; or trailers -/
+def ValidEvent (cfg : Bool × Bool) (blk : HeaderBlock) (g : List Header) (ev : REvent) : Prop :=
+  match ev with
+  | .request m _ f => cfg.1 = true ∧ (∀ r ∈ Spec.Http.request g cfg.2, RequestException g r) ∧
+      f = groupInto [] (regular g) ∧ Spec.Http.get g ":method" = [m]
+  | .headers st f => cfg.1 = false ∧
+      (∀ r ∈ Spec.Http.response g, r = "missing-status" ∨ r = "request-pseudo-in-response") ∧
+      f = groupInto [] (regular g) ∧
+      (Spec.Http.get g ":status" = [st] ∨ (Spec.Http.get g ":status" = [] ∧ st = Http.str "200"))
+  | .informational st f => cfg.1 = false ∧
+      (∀ r ∈ Spec.Http.response g, r = "missing-status" ∨ r = "request-pseudo-in-response") ∧
+      f = groupInto [] (regular g) ∧
+      (Spec.Http.get g ":status" = [st] ∨ (Spec.Http.get g ":status" = [] ∧ st = Http.str "200"))
+  | .trailers f => blk.isOverSize = true ∨
+      ((∀ r ∈ Spec.Http.trailers g, r = "pseudo-in-trailers") ∧ f = groupInto [] (regular g))
+  | .data .. => False
+
+theorem frameAccepted_valid (blk : HeaderBlock) (g : List Header) (sid : Nat) (eos : Bool) (cfg : Bool × Bool)
+    (ev : REvent) (hm : blk.isMalformed = false) (hb : BlockInv blk g) (hok : ∀ x ∈ g, fieldOk x = true)
+    (ha : FrameAccepted cfg (Conn.headersIn sid eos blk) ev) : ValidEvent cfg blk g ev := by
+  rcases ha with ha | ha
+  · cases ev with
+    | request m u f =>
+      obtain ⟨r1, r2, r3⟩ := accepted_request_rules blk g sid eos cfg m u f hm hb hok ha
+      exact ⟨ha.2.1, r1, r2, r3⟩
+    | headers st f =>
+      obtain ⟨r1, r2, r3⟩ := accepted_response_rules blk g sid eos cfg st f hm hb hok (Or.inl ha)
+      exact ⟨ha.2.1, r1, r2, r3⟩
+    | informational st f =>
+      obtain ⟨r1, r2, r3⟩ := accepted_response_rules blk g sid eos cfg st f hm hb hok (Or.inr ha)
+      exact ⟨ha.2.1, r1, r2, r3⟩
+    | data p b => exact ha.2
+    | trailers f => exact ha.2.elim
+  · cases hov : blk.isOverSize with
+    | true => rw [ha]; exact Or.inl hov
+    | false =>
+      obtain ⟨r1, r2⟩ := accepted_trailers_rules blk g sid eos ev hm hov hb hok ha
+      rw [r2]
+      exact Or.inr ⟨r1, rfl⟩
+
+/-- **the receive path for header frames, end to end** -/
+theorem recvHeaders_valid (s : Streams) (blk : HeaderBlock) (g : List Header) (sid : Nat) (eos : Bool)
+    (hm : blk.isMalformed = false) (hb : BlockInv blk g) (hok : ∀ x ∈ g, fieldOk x = true) :
+    Delivers (fun _ ev => ValidEvent (cfgOf s) blk g ev) s (s.recvHeaders (Conn.headersIn sid eos blk)).1 :=
+  (recvHeaders_delivers s _).mono fun _ ev ha => frameAccepted_valid blk g sid eos _ ev hm hb hok ha
+
 end H2V.Lemmas.ConnHttpP
